@@ -377,6 +377,8 @@ func (m *Manager) Poll() error {
 		return nil
 	}
 
+	verifhook.At("sleep.Poll.before-second-lock")
+
 	m.stateMu.Lock()
 	defer m.stateMu.Unlock()
 
